@@ -6,7 +6,7 @@ LEVEL = "model_checking"
 MANIFEST = dict(cat=LEVEL, ref="DESIGN.md 3.9, 6 (C07)",
     tech="TLA+ reference spec Relational.tla with a transaction/savepoint stack explored by TLC (per-transition emission, VIEW hides history; -simulate walks); every behaviour rendered to SQL and replayed on TurDB, full observation compared with the model",
     text="every BEGIN/SAVEPOINT/ROLLBACK TO/RELEASE/ROLLBACK/COMMIT history TLC explores (depth 3 quick / 5 thorough, <=2 nested savepoints, with INSERT/UPDATE incl. key and unique columns/DELETE inside, plus 150 (quick) / 1500 (thorough) random walks of 14-30 steps from the weighted workload spec WSpec, every prefix judged) is executed on TurDB; after ROLLBACK / ROLLBACK TO the full observation (scan, COUNT(*), primary-key, unique-index and range lookups) must equal the model's snapshot, and every later statement (re-insert of a rolled-back key, unique probes) must behave as the model says",
-    note="single handle (dropping a handle with an open transaction is in C08's histories); INT primary key schema; bounded domain (3 ids, a in {NULL,1,2}, b in {NULL,0,1,5}); quick replays a stratified sample")
+    note="single handle (dropping a handle with an open transaction is in C08's histories); INT primary key + UNIQUE + secondary (CREATE INDEX) index schema; an additional transaction-focused exhaustive exploration (TSpec: 7-8 steps inside transactions from a two-row table: ROLLBACK TO followed by writes and a second rollback, RELEASE, nested savepoints); bounded domain (3 ids, a in {NULL,1,2}, b in {NULL,0,1,5}); quick replays a stratified sample")
 
 
 def relevant(d, hist):
@@ -49,7 +49,18 @@ def focus(c):
 
 
 def run(chk):
-    relrun.standard(chk, relevant, signature, focus=focus, with_txn=True, with_reopen=False,
+    _standard(chk)
+    thorough = chk.tier == "thorough"
+    # transaction-focused exhaustive exploration (TSpec of MC_Relational.tla): two rows to start with, every
+    # transaction-control step, depth 7 (quick, stratified sample) / 8 (thorough, all) inside transactions
+    st = relrun.focus_phase(chk, relevant, signature, "Gen_TxnFocus.cfg", 10 if thorough else 9, None if thorough else 6000)
+    chk.cov["txn_focus"] = st
+    chk.cov["traces_validated_against_impl"] += st["replayed"]
+    chk.mark("txn_focus")
+
+
+def _standard(chk):
+    relrun.standard(chk, relevant, signature, focus=focus, with_txn=True, with_reopen=False, schema="pk_idx_b",
                     quick=(3, 3000), thorough=(5, 60000), walks_quick=(150, 14), walks_thorough=(1500, 30), weighted_walks=True,
                     extra_assumptions=["single handle; DropHandle with an open transaction is covered by C08's multi-handle histories"])
 
